@@ -30,6 +30,11 @@ def run_check(prop, tier, repo_root, quiet=False):
         mod = importlib.import_module(f"gv.props.{prop.lower()}")
         ctx = Ctx(prop, repo, tier)
         mod.check(ctx)
+        if ctx.deferred:
+            # rules that were undecidable on this tree: shown, and decisive (exit 2) unless some rule found a violation
+            for e in ctx.deferred[1:]:
+                print(f"ANALYSIS-ERROR property={prop} rule={e.rule} at {e.where}: {e.reason}")
+            raise ctx.deferred[0]
         if tier == "thorough":
             thorough_extra(ctx, mod)
         if not ctx.instances:
